@@ -60,8 +60,8 @@ class BaseCheck(object):
   EXHAUSTIVE = {}         # tier -> bool
   QUICK_CASES = 100
   THOROUGH_CASES = 1000
-  QUICK_WALL = 40.0       # soft per-worker wall budget (s): stop starting cases
-  THOROUGH_WALL = 600.0
+  QUICK_WALL = 180       # soft per-worker wall budget (s): stop starting cases
+  THOROUGH_WALL = 1800
   MAX_WORKERS = 16
   NEEDS_ENV = True        # install the virtual loop in the worker
 
